@@ -957,6 +957,9 @@ def cases(tier, seed):
         out.append(_hpo(_case("ma_on", "IPPO", s(), act=act, num_envs=8, learn_step=4, evo_steps=8, gens=2,
                               obs="image" if act == "box" else "dict")))
     out.append(_case("ma_on", "IPPO", s(), env_mode="asyncvec", num_envs=2, learn_step=4, evo_steps=8, gens=2))
+    out.append(_hpo(_case("ma_on", "IPPO", s(), num_envs=2, learn_step=4, evo_steps=8, gens=2, sum_scores=False)))
+    out.append(_hpo(_case("ma_off", "MATD3", s(), num_envs=2, learn_step=2, evo_steps=8, gens=2, sum_scores=False)))
+    out.append(_case("on", "PPO", s(), num_envs=2, learn_step=4, evo_steps=4, target=1e9, steps_len=99, gens=3))
     # informational probes: memories the learner has no arguments for
     out.append(_case("off", "DQN", s(), mem="per", info_only=True, gens=2))
     out.append(_case("off", "DDPG", s(), mem="nstep", info_only=True, gens=2))
@@ -995,6 +998,12 @@ def cases(tier, seed):
             kw["act"] = ["discrete", "box"][int(rng.integers(2))]
         if loop == "ma_off":
             kw["act"] = ["box", "box", "discrete"][int(rng.integers(3))]
+        if loop in ("ma_off", "ma_on") and rng.random() < 0.25:
+            kw["sum_scores"] = False
+        if loop != "bandit" and rng.random() < 0.06:
+            # documented early stop: needs >= 100 generations on record (a resumed population) and fitness above target
+            kw.update(steps_len=int(rng.integers(96, 100)), gens=int(rng.integers(3, 6)))
+            kw["target"] = -1e9 if rng.random() < 0.7 else 1e9
         if loop == "offline":
             kw["evo_steps"] = int(rng.integers(2, 6))
         if loop == "bandit":
@@ -1208,6 +1217,8 @@ def run_case(case):
                 kw["learning_delay"] = int(case["learning_delay"])
             if loop == "bandit":
                 kw["episode_steps"] = int(case["episode_steps"])
+            if loop in ("ma_off", "ma_on") and "sum_scores" in case:
+                kw["sum_scores"] = bool(case["sum_scores"])
             if case.get("ckpt"):
                 kw.update(checkpoint=int(case["ckpt"]), checkpoint_path=os.path.join(tmp, "ck.pt"),
                           overwrite_checkpoints=bool(case.get("overwrite")))
